@@ -292,6 +292,8 @@ static ares_status_t config_search(ares_sysconfig_t *sysconfig, const char *str,
                                    size_t max_domains)
 {
   const char *p = str;
+  char      **domains;
+  size_t      ndomains = 0;
 
   /* A value made of separators only names no domain.  ares_strsplit() returns
    * NULL for it, which must not be mistaken for ARES_ENOMEM: ignore the line */
@@ -302,17 +304,20 @@ static ares_status_t config_search(ares_sysconfig_t *sysconfig, const char *str,
     return ARES_SUCCESS;
   }
 
+  /* Split first: a value that cannot be used (allocation failure, or bytes
+   * ares_strsplit() refuses such as a tab or a non-ASCII byte in LOCALDOMAIN)
+   * must not cost us the list we already have */
+  domains = ares_strsplit(str, ", ", &ndomains);
+  if (domains == NULL) {
+    return ARES_ENOMEM;
+  }
+
   if (sysconfig->domains && sysconfig->ndomains > 0) {
     /* if we already have some domains present, free them first */
     ares_strsplit_free(sysconfig->domains, sysconfig->ndomains);
-    sysconfig->domains  = NULL;
-    sysconfig->ndomains = 0;
   }
-
-  sysconfig->domains = ares_strsplit(str, ", ", &sysconfig->ndomains);
-  if (sysconfig->domains == NULL) {
-    return ARES_ENOMEM;
-  }
+  sysconfig->domains  = domains;
+  sysconfig->ndomains = ndomains;
 
   /* Truncate if necessary */
   if (max_domains && sysconfig->ndomains > max_domains) {
